@@ -230,6 +230,14 @@ func genSchemaText(r *rand.Rand, plainComments bool) string {
 
 // ---------------------------------------------------------------------------------------------
 
+// harnessDir: the module root the worker was built from (generated packages must live inside it).
+func harnessDir() string {
+	if r := os.Getenv("VERIF_ROOT"); r != "" {
+		return filepath.Join(r, "harness")
+	}
+	return "/verif/harness"
+}
+
 type c14case struct {
 	tag   string
 	text  string
@@ -275,10 +283,10 @@ func c14(c *wk.Ctx) {
 		idx++
 	}
 	// (a) parser vs independent parse, (b) determinism of the tool
-	work, err := os.MkdirTemp("/verif/harness/zgen", fmt.Sprintf("w%d-", c.Shard))
+	os.MkdirAll(filepath.Join(harnessDir(), "zgen"), 0o755)
+	work, err := os.MkdirTemp(filepath.Join(harnessDir(), "zgen"), fmt.Sprintf("w%d-", c.Shard))
 	if err != nil {
-		os.MkdirAll("/verif/harness/zgen", 0o755)
-		work, err = os.MkdirTemp("/verif/harness/zgen", fmt.Sprintf("w%d-", c.Shard))
+		work, err = os.MkdirTemp(filepath.Join(harnessDir(), "zgen"), fmt.Sprintf("w%d-", c.Shard))
 		if err != nil {
 			c.Log.Emit(coreInconclusive("c14: " + err.Error()))
 			return
@@ -574,7 +582,7 @@ func c14build(c *wk.Ctx, cases []c14case, work string, batch bool) {
 	if len(cases) == 0 {
 		return
 	}
-	rel, _ := filepath.Rel("/verif/harness", work)
+	rel, _ := filepath.Rel(harnessDir(), work)
 	var imports, entries, args []string
 	for _, cs := range cases {
 		os.WriteFile(filepath.Join(work, cs.tag, "telegram", "zz_stub.go"), []byte(c14stub), 0o644)
@@ -589,7 +597,7 @@ func c14build(c *wk.Ctx, cases []c14case, work string, batch bool) {
 	os.WriteFile(filepath.Join(mainDir, "main.go"), []byte(mainSrc), 0o644)
 	bin := filepath.Join(work, "dumper.bin")
 	cmd := exec.Command("go", "build", "-tags", "verif", "-o", bin, "./"+filepath.ToSlash(rel)+"/dumper")
-	cmd.Dir = "/verif/harness"
+	cmd.Dir = harnessDir()
 	cmd.Env = append(os.Environ(), "GOFLAGS=-mod=mod", "GOPROXY=off", "GOSUMDB=off", "GOTOOLCHAIN=local")
 	out, err := cmd.CombinedOutput()
 	c.Count("compile.builds", 1)
